@@ -50,7 +50,7 @@ var MutationKinds = []string{
 	"dir-wrong-location-type", "dir-wrong-location-enumvalue", "dir-wrong-location-field", "dir-wrong-location-arg", "dir-wrong-location-inputfield",
 	"dir-unknown-arg-type", "dir-unknown-arg-field", "dir-uncoercible-arg-type", "dir-uncoercible-arg-field", "dir-uncoercible-arg-enumvalue",
 	// R8 directive definition cycles
-	"dir-cycle-self", "dir-cycle-two",
+	"dir-cycle-self", "dir-cycle-two", "dir-cycle-lasso", "ref-directive-named-like-type",
 }
 
 func ruleOf(kind string) string {
@@ -624,6 +624,60 @@ func Mutate(t *rapid.T, base *hx.Schema, kind string) (s *hx.Schema, m Mutation,
 	case "dir-cycle-self":
 		m.Tail = "directive @loop(a: Int @loop) on INPUT_FIELD_DEFINITION | ARGUMENT_DEFINITION"
 		m.Names, m.Position = []string{"loop"}, "directive"
+	case "dir-cycle-lasso":
+		// a directive that is not on a cycle itself but leads into one
+		m.Tail = "directive @lead(a: Int @ping) on INPUT_FIELD_DEFINITION | ARGUMENT_DEFINITION\ndirective @ping(a: Int @pong) on INPUT_FIELD_DEFINITION | ARGUMENT_DEFINITION\ndirective @pong(a: Int @ping, b: Int) on INPUT_FIELD_DEFINITION | ARGUMENT_DEFINITION"
+		if pick(2, "lassoOrder") == 0 {
+			m.Tail = "directive @pong(a: Int @ping, b: Int) on INPUT_FIELD_DEFINITION | ARGUMENT_DEFINITION\ndirective @ping(a: Int @pong) on INPUT_FIELD_DEFINITION | ARGUMENT_DEFINITION\ndirective @lead(a: Int @ping) on INPUT_FIELD_DEFINITION | ARGUMENT_DEFINITION"
+		}
+		m.Names, m.Position = []string{"ping", "pong", "lead"}, "directive"
+	case "ref-directive-named-like-type":
+		// the use names something that is defined - as a type, not as a directive
+		var tn string
+		for _, td := range s.Types {
+			isDir := false
+			for _, d := range s.Dirs {
+				if d.Name == td.Name {
+					isDir = true
+				}
+			}
+			if !isDir {
+				tn = td.Name
+				break
+			}
+		}
+		if tn == "" {
+			return nil, m, false
+		}
+		fs := fieldSites(s, hx.KObject, hx.KInterface)
+		switch pick(4, "where") {
+		case 0:
+			td := s.Types[pick(len(s.Types), "site")]
+			td.Dirs = append(td.Dirs, hx.DirUse{Name: tn})
+			m.Position = "type:" + td.Kind
+		case 1:
+			f := fs[pick(len(fs), "site")]
+			f.f.Dirs = append(f.f.Dirs, hx.DirUse{Name: tn})
+			m.Position = "field"
+		case 2:
+			as := argSites(s)
+			if len(as) == 0 {
+				return nil, m, false
+			}
+			a := as[pick(len(as), "site")]
+			a.a.Dirs = append(a.a.Dirs, hx.DirUse{Name: tn})
+			m.Position = "argument"
+		default:
+			ins := kindsOf(s, hx.KInput)
+			if len(ins) == 0 {
+				return nil, m, false
+			}
+			in := ins[pick(len(ins), "site")]
+			f := in.Inputs[pick(len(in.Inputs), "field")]
+			f.Dirs = append(f.Dirs, hx.DirUse{Name: tn})
+			m.Position = "input-field"
+		}
+		m.Names = []string{tn}
 	case "dir-cycle-two":
 		m.Tail = "directive @ping(a: Int @pong) on INPUT_FIELD_DEFINITION | ARGUMENT_DEFINITION\ndirective @pong(a: Int @ping) on INPUT_FIELD_DEFINITION | ARGUMENT_DEFINITION"
 		m.Names, m.Position = []string{"ping", "pong"}, "directive"
